@@ -143,14 +143,16 @@ def run_mass(case):
                         gs.append(250.0), cr.append(True)
                 gs, cr = np.array(gs), np.array(cr)
                 z = np.zeros(n)
-                args = (np.full(n, 288.15), z.copy(), gs.copy(), z.copy(), z.copy(), cr, gs.copy(), 2000.0)
+                # true airspeed = ground speed - wind component (a piston engine's fuel flow does not depend on it)
+                tas = gs - np.array(case['wind'], float)
+                args = (np.full(n, 288.15), z.copy(), tas, z.copy(), z.copy(), cr, gs.copy(), 2000.0)
                 for n_iter in (1, 2, 3):
                     if case['dir'] == 'forward':
                         got = model.iterate_flight_simulation_constant_initial_mass(*args, float(case['anchor']), n_iter=n_iter)
                     else:
                         got = model.iterate_flight_simulation_constant_final_mass(*args, float(case['anchor']), n_iter=n_iter)
                     if not np.allclose(got, want, rtol=1e-9, atol=1e-9):
-                        devs.append((f'iterate:{case["dir"]}', f'piston profile gs={gs.tolist()} cruise={cr.tolist()} n_iter={n_iter}: mass = {np.asarray(got).tolist()}; specification: {want.tolist()}'))
+                        devs.append((f'iterate:{case["dir"]}', f'piston profile gs={gs.tolist()} tas={tas.tolist()} ({case["windname"]} wind) cruise={cr.tolist()} n_iter={n_iter}: mass = {np.asarray(got).tolist()}; specification: {want.tolist()}'))
                         break
                 if case['dir'] == 'forward':
                     burn = float(want[0] - want[-1])
